@@ -164,7 +164,10 @@ func TestReplay(t *testing.T) {
 		t.Fatalf("unknown scenario %q", rec.Scenario)
 	}
 	cfg := sc.Cfg
-	cfg.Trace = true
+	cfg.Trace = os.Getenv("VNOTRACE") == ""
+	if os.Getenv("VPRE") != "" {
+		vsched.RunOnce(t, sc.Cfg, nil, nil, func(s *vsched.Sched) { sc.Body(s, rec.Param) })
+	}
 	x := vsched.RunOnce(t, cfg, rec.Choices, nil, func(s *vsched.Sched) { sc.Body(s, rec.Param) })
 	v := execViolations(x)
 	res := map[string]interface{}{"violations": v, "obs": x.Obs, "terminal": x.Terminal, "diverged": x.Diverged, "trace": x.Trace, "choices": x.Choices(), "leaked": x.Leaked}
